@@ -217,8 +217,16 @@ func checkC07(c *lib.Ctx) {
 					}
 				} else {
 					ts := append([]uint32(nil), typeSample...)
+					if ri.job.Cfg.Kind == "os" {
+						// each unknown type byte costs a process (F4): three of the sample per frame, rotating,
+						// so that every named value still meets every os configuration and request kind
+						ts = nil
+						for x := 0; x < 3; x++ {
+							ts = append(ts, typeSample[(i*3+x+ri.sess.idx)%len(typeSample)])
+						}
+					}
 					if pipe {
-						ts = []uint32{0, 99, 104, 255}
+						ts = []uint32{0, 99, 104, 255}[i%4 : i%4+1]
 					}
 					for x := 0; x < 5; x++ {
 						ts = append(ts, c07ValidTypes[c.Rand.Intn(len(c07ValidTypes))])
